@@ -738,6 +738,64 @@ func c13Seek(c *eng.Ctx) {
 		}
 		c.Floor(f, "HasPrefix comparisons", n, 1)
 	}
+	// the page is full when the number of entries that will be RETURNED reaches the limit (not some other
+	// count, e.g. the keys present in storage): sibling agreement of the early exit — seed C13-b
+	for _, fn := range []string{"raft.listPageInner", "raft.(*RaftTransaction).ListPage"} {
+		f := c.Fn(fn)
+		if f == nil {
+			continue
+		}
+		c.Clause("R8", "C13.3")
+		// what is returned on success
+		retName := map[string]bool{}
+		for _, r := range eng.SuccessReturns(f, 1) {
+			vals, _, _ := eng.ReturnVals(r.(*ssa.Return), 0)
+			for _, v := range vals {
+				for _, root := range eng.Roots(v, nil) {
+					if n := eng.VarName(root); n != "" {
+						retName[n] = true
+					}
+				}
+				if n := eng.VarName(v); n != "" {
+					retName[n] = true
+				}
+			}
+		}
+		site := "page is full when the returned entries reach the limit"
+		n := 0
+		for _, e := range eng.CondEdges(f, `^len\(.*\) < limit$`, false) {
+			iff := eng.IfOf(e.From)
+			bo, ok := iff.Cond.(*ssa.BinOp)
+			if !ok {
+				continue
+			}
+			var lenArg ssa.Value
+			for _, side := range []ssa.Value{bo.X, bo.Y} {
+				if cl, ok := side.(*ssa.Call); ok && eng.CalleeName(&cl.Call) == "len" {
+					lenArg = cl.Call.Args[0]
+				}
+			}
+			if lenArg == nil {
+				continue
+			}
+			// only the exit test inside the scan loop (the one that leads to an exit while the cursor is still valid)
+			counted := eng.VarName(lenArg)
+			if counted == "" {
+				for _, root := range eng.Roots(lenArg, nil) {
+					if nm := eng.VarName(root); nm != "" {
+						counted = nm
+					}
+				}
+			}
+			n++
+			if retName[counted] {
+				c.OK(f, site, iff.Cond.Pos(), "len("+counted+") >= limit, and "+counted+" is what is returned")
+			} else {
+				c.Violation(f, site, iff.Cond.Pos(), "the page-full test counts "+eng.Expr(lenArg)+", which is not the list that is returned: pages come back short (or long) and the paginated listing is no longer a slice of the full one", nil)
+			}
+		}
+		c.Floor(f, "page-full tests", n, 1)
+	}
 	if f := c.Fn("raft.(*FSM).ListPage$1"); f != nil {
 		c.Clause("R5", "C13.3")
 		lp := eng.Calls(f, `raft\.listPageInner$`)
